@@ -28,4 +28,5 @@ Definition run (op : Z) (arg : V) : V :=
   if op =? 42 then run_ctor arg else
   if op =? 43 then run_channels arg else
   if op =? 44 then run_heap arg else
+  if op =? 45 then run_eq arg else
   fail EOther.
